@@ -201,6 +201,18 @@ func (a *APIServer) Stop(ctx context.Context) {
 	os.RemoveAll(a.Dir)
 }
 
+// ExternalStderr returns what the external binary wrote to its standard error (the panic message, if it died of one).
+func (a *APIServer) ExternalStderr() string {
+	if a.proc == nil {
+		return ""
+	}
+	out, _ := os.ReadFile(filepath.Join(a.Dir, "dirk.stderr"))
+	if len(out) > 8000 {
+		out = append(out[:5000], out[len(out)-3000:]...)
+	}
+	return string(out)
+}
+
 // Alive reports whether the external binary is still running (always true for the in-process server).
 func (a *APIServer) Alive() bool {
 	if a.proc == nil {
@@ -228,7 +240,8 @@ func StartExternalDirk(ctx context.Context, log *Log, mode string, binary string
 	wallets := filepath.Join(base, "wallets")
 	spec := Spec{Wallets: []WalletSpec{{Name: "W1", Type: "nd", Accounts: []AccountSpec{{Name: "a0", KeyIdx: 0}, {Name: "a1", KeyIdx: 1}}},
 		{Name: "W2", Type: "nd", Accounts: []AccountSpec{{Name: "b0", KeyIdx: 2}, {Name: "b1", KeyIdx: 3}}}, {Name: "DW", Type: "distributed"}}, WalletDir: wallets}
-	if _, err := NewBase(ctx, spec, log, NewControl(log)); err != nil {
+	xb, err := NewBase(ctx, spec, log, NewControl(log))
+	if err != nil {
 		return nil, err
 	}
 	issuer := pki
@@ -298,7 +311,7 @@ permissions:
 	if err := cmd.Start(); err != nil {
 		return nil, err
 	}
-	a := &APIServer{Addr: addr, PKI: pki, Other: other, Dir: base, proc: cmd}
+	a := &APIServer{Addr: addr, PKI: pki, Other: other, Dir: base, proc: cmd, B: xb}
 	deadline := time.Now().Add(20 * time.Second)
 	for {
 		c, err := net.DialTimeout("tcp", addr, 200*time.Millisecond)
